@@ -414,6 +414,9 @@ fn one_damage(run: &Run, s: &Subject, raw_pre: &fmt06::Raw, base_errors: &BTreeM
     crate::scratch::rm(&out);
 }
 
+/// Case number of the scale subject (10 040 files, one entry per hunk).
+const SCALE_CASE: u64 = 1_000_000;
+
 pub fn run(tier: Tier, replay: Option<Value>) -> i32 {
     let run = Run::new("C10", "fault_enumeration", tier, replay.clone());
     let exe = std::env::current_exe().expect("current exe");
@@ -422,13 +425,13 @@ pub fn run(tier: Tier, replay: Option<Value>) -> i32 {
         run.count("memcheck_unavailable", 1);
     }
     let n = tier.pick(4u64, 120);
-    for case in 0..n {
+    for case in (0..n).chain([SCALE_CASE]) {
         if let Some(r) = &replay {
             if r.get("case").and_then(|c| c.as_u64()) != Some(case) {
                 continue;
             }
         }
-        let s = damage::build_subject(run.seed, case, "c10");
+        let s = if case == SCALE_CASE { damage::build_scale_subject(run.seed, "c10big") } else { damage::build_subject(run.seed, case, "c10") };
         let raw_pre = fmt06::read_archive(&s.world.arch, false);
         // fault-free run of the same child: must be clean, and gives the operation budget
         let base_arch = s.world.sc.fresh("base");
@@ -457,7 +460,10 @@ pub fn run(tier: Tier, replay: Option<Value>) -> i32 {
             .collect();
         run.count("archives", 1);
         let flips = tier.pick(2, 6);
-        let damages = damage::all_damages(&s.world.arch, true, flips);
+        let damages = if case == SCALE_CASE { damage::scale_damages() } else { damage::all_damages(&s.world.arch, true, flips) };
+        if case == SCALE_CASE {
+            run.count("damages_on_a_band_with_two_hunk_subdirectories", damages.len() as u64);
+        }
         run.sample(|| json!({"case": case, "history": s.desc, "bands": s.bands, "complete": s.complete, "fault_free_storage_ops": base_ops, "damages": damages.len(),
             "first_damages": damages.iter().take(6).map(|d| d.desc()).collect::<Vec<_>>()}));
         let only = replay.as_ref().and_then(|r| r.get("damage_index")).and_then(|d| d.as_u64()).map(|d| d as usize);
@@ -511,10 +517,10 @@ pub fn run(tier: Tier, replay: Option<Value>) -> i32 {
         }
     }
     let needs: &[(&str, u64)] = if replay.is_some() { &[] } else {
-        &[("damaged_archives_run", 200), ("children_completed", 150), ("untouched_entries_compared", 1000), ("touched_entries_judged", 50), ("followup_backups_judged", 50)]
+        &[("damaged_archives_run", 200), ("children_completed", 150), ("untouched_entries_compared", 1000), ("touched_entries_judged", 50), ("followup_backups_judged", 50), ("damages_on_a_band_with_two_hunk_subdirectories", 5)]
     };
     run.finish(
-        "archives with 2-4 bands (complete, interrupted in the middle, interrupted newest) sharing blocks; EVERY file except CONSERVE x {delete (not BANDTAIL), truncate 0, truncate half, seeded garbage} + seeded bit flips in every file + seeded single-bit flips in the uncompressed JSON of every hunk, head and tail that keep it decodable (the damage no checksum catches); each damaged archive is given to a child process that lists versions (band info, sizes), lists and restores every band, validates fully and quickly, backs up the source again and restores that; the parent requires: normal termination (panic, abort, signal = violation; more than 1000x the fault-free number of storage operations = violation; 120 s wall clock = inconclusive); every version other than one whose own BANDHEAD was damaged still opens; each entry whose hunk, that hunk's BANDHEAD and blocks are untouched is restored exactly; entries whose hunk or block is now missing or undecodable are restored exactly or the restore reports an error (the vanished last hunk of an incomplete band excepted: indistinguishable from an earlier interruption); after delete / truncate-to-0 the new backup completes and restores the source exactly. Auxiliary sanitizer pass: garbage / bit-flip / half-truncated cases of two archives (8 in quick, 100 per archive in thorough) are replayed with the child under valgrind memcheck (--error-exitcode=99); a report is judged like a crash.",
+        "archives with 2-4 bands (complete, interrupted in the middle, interrupted newest) sharing blocks; EVERY file except CONSERVE x {delete (not BANDTAIL), truncate 0, truncate half, seeded garbage} + seeded bit flips in every file + seeded single-bit flips in the uncompressed JSON of every hunk, head and tail that keep it decodable (the damage no checksum catches); plus one archive of 10 040 files with one entry per hunk (hunks in i/00000 and i/00001) with hunks 5, 9999, 10000, 10030 deleted / emptied, hunk 7 replaced by garbage, hunk 10001 halved, the last hunk deleted; each damaged archive is given to a child process that lists versions (band info, sizes), lists and restores every band, validates fully and quickly, backs up the source again and restores that; the parent requires: normal termination (panic, abort, signal = violation; more than 1000x the fault-free number of storage operations = violation; 120 s wall clock = inconclusive); every version other than one whose own BANDHEAD was damaged still opens; each entry whose hunk, that hunk's BANDHEAD and blocks are untouched is restored exactly; entries whose hunk or block is now missing or undecodable are restored exactly or the restore reports an error (the vanished last hunk of an incomplete band excepted: indistinguishable from an earlier interruption); after delete / truncate-to-0 the new backup completes and restores the source exactly. Auxiliary sanitizer pass: garbage / bit-flip / half-truncated cases of two archives (8 in quick, 100 per archive in thorough) are replayed with the child under valgrind memcheck (--error-exitcode=99); a report is judged like a crash.",
         &["hunks carry no checksum: a hunk that still decodes after damage imposes no content requirement", "the child and the parent are the same binary; the interceptor's operation count is the progress measure"],
         Some(true),
         needs,
